@@ -1,14 +1,383 @@
 /-
-Driver ops of the generator-level family (name table, prefixes, imports, rewrite). `run` returns
-`none` for op names it does not own.
+Driver ops of the generator-level family (name table, prefixes, imports). `run` returns `none` for op
+names it does not own. Every op line is self-contained (the driver's `run` is stateless), so a whole
+operation sequence on a name table is ONE line:
+
+  op <id> tm (cfg PFX (RESERVED…) AUTONAME DEDUP) OP…     OP ::= (set NAME T…) | (get T…) | (gen T…) | (togen)
+                                                                | (done) | (nameof T…) | (newname T…) | (names)
+        → answers of the ops joined by `;`
+  op <id> eq (T…) (T…)                → <eq>,<identical>
+  op <id> sortplugins (NAME PFX)…     → sorted prefixes `,`-joined, `|`, plugin names in that order (or `-` when two
+                                        prefixes are equal: their relative order is then not determined)
+  op <id> dispatch CALLNAME PFX…      → prefix of the handling plugin (after sorting) or `none`
+  op <id> regall (flags AUTONAME DEDUP RESERVED…) (plugins (PFX KIND)…) (files (file (call NAME T…)…)…)
+        → ok/<names per file>/<changed per file>/<tables> | err:<class>:<plugin prefix>… | panic
+  op <id> rho P NAME                  → strings.Replace(NAME, "derive", P, 1)
+  op <id> effprefixes P (ov (PLUGIN PFX)…) → effective prefixes of the 33 default plugins, sorted
+  op <id> defaultplugins              → the model's table of (plugin, default prefix)
+  op <id> imports (NAME PATH)…        → aliases returned by the import closures `,`-joined `|` final table
+
+Names travel as atoms in which every byte other than [A-Za-z0-9_] is written %XX (so invalid UTF-8
+produced by byte slicing is representable); the empty name is `%`.
+Types: bool int i8 i16 i32 i64 uint u8 u16 u32 u64 uintptr f32 f64 c64 c128 string func iface
+       (p T) (sl T) (ar N T) (m K V) (ch T) (st T…) (nm PKG NAME T)   — PKG: 0 = the package itself.
 -/
 import GoderiveModel.U.Wire
+import GoderiveModel.G.TypesMap
 import Driver.State
 
-open Goderive
+open Goderive Goderive.G
 
 namespace OpsGen
 
-def run (_s : DState) (_name : String) (_args : List SExp) : Option String := none
+def hexv (c : Char) : Option Nat :=
+  if '0' ≤ c && c ≤ '9' then some (c.toNat - '0'.toNat)
+  else if 'a' ≤ c && c ≤ 'f' then some (c.toNat - 'a'.toNat + 10)
+  else if 'A' ≤ c && c ≤ 'F' then some (c.toNat - 'A'.toNat + 10)
+  else none
+
+def unescChars : List Char → Option Name
+  | [] => some []
+  | '%' :: a :: b :: rest => do
+    let x ← hexv a; let y ← hexv b; let r ← unescChars rest
+    pure ((x * 16 + y) :: r)
+  | '%' :: _ => none
+  | c :: rest => do
+    if c.toNat ≥ 128 then none
+    let r ← unescChars rest
+    pure (c.toNat :: r)
+
+def unesc (s : String) : Option Name :=
+  if s == "%" then some [] else unescChars s.toList
+
+def hexd (n : Nat) : Char :=
+  if n < 10 then Char.ofNat ('0'.toNat + n) else Char.ofNat ('A'.toNat + n - 10)
+
+def plainByte (b : Nat) : Bool :=
+  (48 ≤ b && b ≤ 57) || (65 ≤ b && b ≤ 90) || (97 ≤ b && b ≤ 122) || b == 95
+
+def esc (n : Name) : String :=
+  if n.isEmpty then "%" else
+  String.ofList (n.flatMap fun b =>
+    if plainByte b then [Char.ofNat b] else ['%', hexd (b / 16 % 16), hexd (b % 16)])
+
+def basicName : String → Option String
+  | "bool" => some "bool" | "int" => some "int" | "i8" => some "int8" | "i16" => some "int16"
+  | "i32" => some "int32" | "i64" => some "int64" | "uint" => some "uint" | "u8" => some "uint8"
+  | "u16" => some "uint16" | "u32" => some "uint32" | "u64" => some "uint64" | "uintptr" => some "uintptr"
+  | "f32" => some "float32" | "f64" => some "float64" | "c64" => some "complex64"
+  | "c128" => some "complex128" | "string" => some "string"
+  | _ => none
+
+mutual
+partial def parseGTy : SExp → Option GTy
+  | .atom "func" => some .func
+  | .atom "iface" => some .iface
+  | .atom a => (basicName a).map fun n => .basic (asc n)
+  | .list [.atom "nm", .atom p, .atom n, t] => do
+    pure (.named (← p.toNat?) (← unesc n) (← parseGTy t))
+  | .list [.atom "p", t] => (parseGTy t).map .ptr
+  | .list [.atom "sl", t] => (parseGTy t).map .slice
+  | .list [.atom "ch", t] => (parseGTy t).map .chan
+  | .list [.atom "ar", .atom n, t] => do pure (.array (← n.toNat?) (← parseGTy t))
+  | .list [.atom "m", k, v] => do pure (.map (← parseGTy k) (← parseGTy v))
+  | .list (.atom "st" :: fs) => (parseGFields fs).map .struct
+  | _ => none
+partial def parseGFields : List SExp → Option GTy
+  | [] => some .fnil
+  | f :: rest => do pure (.fcons (← parseGTy f) (← parseGFields rest))
+end
+
+def basicAtom (n : Name) : String :=
+  let s := esc n
+  match s with
+  | "int8" => "i8" | "int16" => "i16" | "int32" => "i32" | "int64" => "i64"
+  | "uint8" => "u8" | "uint16" => "u16" | "uint32" => "u32" | "uint64" => "u64"
+  | "float32" => "f32" | "float64" => "f64" | "complex64" => "c64" | "complex128" => "c128"
+  | s => s
+
+/-- wire form with `,` instead of spaces -/
+partial def showGTy : GTy → String
+  | .basic n => basicAtom n
+  | .named p n u => s!"(nm,{p},{esc n},{showGTy u})"
+  | .ptr t => s!"(p,{showGTy t})"
+  | .slice t => s!"(sl,{showGTy t})"
+  | .chan t => s!"(ch,{showGTy t})"
+  | .array n t => s!"(ar,{n},{showGTy t})"
+  | .map k v => s!"(m,{showGTy k},{showGTy v})"
+  | .struct fs => "(st" ++ showFields fs ++ ")"
+  | .func => "func"
+  | .iface => "iface"
+  | .fnil => "?"
+  | .fcons _ _ => "?"
+where showFields : GTy → String
+  | .fcons t r => "," ++ showGTy t ++ showFields r
+  | _ => ""
+
+def showTyps (ts : List GTy) : String := "[" ++ ",".intercalate (ts.map showGTy) ++ "]"
+
+/-- all (pkg, name) ↦ underlying bindings of named types inside a type; the wire is rejected when one
+pair is bound to two different underlying types (the terms would not be canonical) -/
+partial def namedBindings : GTy → List ((Nat × Name) × GTy)
+  | .named p n u => ((p, n), u) :: namedBindings u
+  | .ptr t | .slice t | .chan t | .array _ t | .struct t => namedBindings t
+  | .map k v => namedBindings k ++ namedBindings v
+  | .fcons t r => namedBindings t ++ namedBindings r
+  | _ => []
+
+def consistent (ts : List GTy) : Bool :=
+  let bs := ts.flatMap namedBindings
+  bs.all fun (k, u) => bs.all fun (k', u') => k != k' || u == u'
+
+def parseTyps (xs : List SExp) : Option (List GTy) := xs.mapM parseGTy
+
+def R := GTy.rel
+
+def bool01 : String → Option Bool
+  | "0" => some false | "1" => some true | _ => none
+
+def atomsOf : List SExp → Option (List String)
+  | [] => some []
+  | .atom a :: r => (atomsOf r).map (a :: ·)
+  | _ => none
+
+def parseCfg : SExp → Option Cfg
+  | .list [.atom "cfg", .atom pfx, .list res, .atom a, .atom d] => do
+    let rs ← (← atomsOf res).mapM unesc
+    pure { pfx := ← unesc pfx, reserved := rs, autoname := ← bool01 a, dedup := ← bool01 d }
+  | _ => none
+
+def showErr : Err → String
+  | .duplicate h w => s!"err:dup:{esc h}:{esc w}"
+  | .conflict n => s!"err:conflict:{esc n}"
+
+/-- one op of a `tm` line: answer and next table; `none` = malformed -/
+def tmOp (c : Cfg) (t : Table GTy) : SExp → Option (String × Table GTy × List GTy)
+  | .list (.atom "set" :: .atom n :: ts) => do
+    let n ← unesc n; let ts ← parseTyps ts
+    match setFuncName R c t n ts with
+    | .ok (m, t') => pure (s!"ok:{esc m}", t', ts)
+    | .error e => pure (showErr e, t, ts)
+  | .list (.atom "get" :: ts) => do
+    let ts ← parseTyps ts
+    let (m, t') := getFuncName R c t ts
+    pure (esc m, t', ts)
+  | .list (.atom "gen" :: ts) => do
+    let ts ← parseTyps ts
+    match generating R t ts with
+    | some t' => pure ("ok", t', ts)
+    | none => pure ("panic", t, ts)
+  | .list [.atom "togen"] => some ("{" ++ "".intercalate ((toGenerate R t).map showTyps) ++ "}", t, [])
+  | .list [.atom "done"] => some (toString (done R t), t, [])
+  | .list (.atom "nameof" :: ts) => do
+    let ts ← parseTyps ts
+    pure ((match nameOf R t ts with | some n => esc n | none => "none"), t, ts)
+  | .list (.atom "newname" :: ts) => do
+    let ts ← parseTyps ts
+    pure (esc (newName R c t ts), t, ts)
+  | .list [.atom "names"] => some ("{" ++ ",".intercalate (t.names.map esc) ++ "}", t, [])
+  | _ => none
+
+def tmRun (c : Cfg) : Table GTy → List SExp → List String → List GTy → Option (List String × List GTy)
+  | _, [], acc, seen => some (acc.reverse, seen)
+  | t, op :: ops, acc, seen =>
+    match tmOp c t op with
+    | none => none
+    | some (a, t', ts) => tmRun c t' ops (a :: acc) (ts ++ seen)
+
+def runTm (args : List SExp) : String :=
+  match args with
+  | cfg :: ops =>
+    match parseCfg cfg with
+    | none => "bad-op"
+    | some c =>
+      match tmRun c {} ops [] [] with
+      | none => "bad-op"
+      | some (as, seen) => if consistent seen then "model=" ++ ";".intercalate as else "ill-typed"
+  | _ => "bad-op"
+
+def pairsOf : List SExp → Option (List (Name × Name))
+  | [] => some []
+  | .list [.atom a, .atom b] :: r => do pure ((← unesc a, ← unesc b) :: (← pairsOf r))
+  | _ => none
+
+def nodupB : List Name → Bool
+  | [] => true
+  | x :: xs => !xs.contains x && nodupB xs
+
+def runSortPlugins (args : List SExp) : String :=
+  match pairsOf args with
+  | none => "bad-op"
+  | some ps =>
+    let s := sortPlugins ps
+    let names := if nodupB (ps.map (·.2)) then ",".intercalate (s.map fun p => esc p.1) else "-"
+    "model=" ++ ",".intercalate (s.map fun p => esc p.2) ++ "|" ++ names
+
+def runDispatch (args : List SExp) : String :=
+  match args with
+  | .atom call :: pfxs =>
+    match unesc call, (atomsOf pfxs).bind (·.mapM unesc) with
+    | some call, some ps =>
+      match dispatch (sortPrefixes ps) call with
+      | some p => "model=" ++ esc p
+      | none => "model=none"
+    | _, _ => "bad-op"
+  | _ => "bad-op"
+
+/-! registration of a whole package -/
+
+def acceptOf : String → Option (List GTy → Bool)
+  | "equal" => some fun ts => match ts with
+      | [_] => true
+      | [a, b] => a == b
+      | _ => false
+  | "hash" => some fun ts => ts.length == 1
+  | "any" => some fun _ => true
+  | _ => none
+
+def parsePlugins : List SExp → Option (List (Name × Plugin GTy))
+  | [] => some []
+  | .list [.atom pfx, .atom kind] :: r => do
+    let p ← unesc pfx; let a ← acceptOf kind
+    pure ((asc kind, { pfx := p, accept := a }) :: (← parsePlugins r))
+  | _ => none
+
+def parseCalls : List SExp → Option (List (Call GTy))
+  | [] => some []
+  | .list (.atom "call" :: .atom n :: ts) :: r => do
+    pure ({ name := ← unesc n, args := ← parseTyps ts } :: (← parseCalls r))
+  | _ => none
+
+def parseFiles : List SExp → Option (List (List (Call GTy)))
+  | [] => some []
+  | .list (.atom "file" :: cs) :: r => do pure ((← parseCalls cs) :: (← parseFiles r))
+  | _ => none
+
+/-- sort the plugin records with the model's `sortPlugins` (by prefix; records keyed by position) -/
+def sortPluginRecs (ps : List (Name × Plugin GTy)) : List (Name × Plugin GTy) :=
+  let keyed := (List.range ps.length).zip ps
+  let sorted := sortPlugins (keyed.map fun (i, _, p) => (itoa i, p.pfx))
+  sorted.filterMap fun (k, _) => (keyed.find? fun (i, _) => itoa i == k).map (·.2)
+
+def showTable (pfx : Name) (t : Table GTy) : String :=
+  esc pfx ++ "=" ++ ",".intercalate (t.entries.map fun (n, ts) => esc n ++ showTyps ts)
+
+def showOptName : Option Name → String
+  | some n => esc n
+  | none => "-"
+
+def runRegAll (args : List SExp) : String :=
+  match args with
+  | [.list (.atom "flags" :: .atom a :: .atom d :: res), .list (.atom "plugins" :: ps),
+     .list (.atom "files" :: fs)] =>
+    match bool01 a, bool01 d, (atomsOf res).bind (·.mapM unesc), parsePlugins ps, parseFiles fs with
+    | some a, some d, some res, some ps, some files =>
+      if !consistent (files.flatMap fun f => f.flatMap (·.args)) then "ill-typed" else
+      let flags : Flags := { reserved := res, autoname := a, dedup := d }
+      let sorted := sortPluginRecs ps
+      let pls := sorted.map (·.2)
+      match registerAll R flags pls files with
+      | .panic => "model=panic"
+      | .error (.add i e) =>
+        let pfx := (pls[i]?.map (·.pfx)).getD []
+        let cls := match e with | .duplicate _ _ => "dup" | .conflict _ => "conflict"
+        s!"model=err:{cls}:{esc pfx}"
+      | .error (.rejected i) =>
+        let pfx := (pls[i]?.map (·.pfx)).getD []
+        s!"model=err:rejected:{esc pfx}"
+      | .ok (out, T) =>
+        let names := ";".intercalate (out.map fun (ns, _) => ",".intercalate (ns.map showOptName))
+        let changed := ",".intercalate (out.map fun (_, ch) => if ch then "1" else "0")
+        let tabs := ";".intercalate ((List.range pls.length).zip pls |>.map fun (i, p) => showTable p.pfx (T i))
+        s!"model=ok/{names}/{changed}/{tabs}"
+    | _, _, _, _, _ => "bad-op"
+  | _ => "bad-op"
+
+/-! the import table of the printer (derive/printer.go NewImport; ASCII paths only) -/
+
+def bytesOfString (s : String) : Name := s.toUTF8.toList.map (·.toNat)
+
+def isLetterOrDigit (b : Nat) : Bool := plainByte b
+
+def indexOfSub (pat : Name) : Name → Nat → Option Nat
+  | [], _ => none
+  | c :: cs, i => if pat.isPrefixOf (c :: cs) then some i else indexOfSub pat cs (i + 1)
+
+/-- last index of `pat` in `s` -/
+def lastIndexOf (pat s : Name) : Option Nat :=
+  (List.range (s.length + 1)).foldl (fun acc i => if pat.isPrefixOf (s.drop i) then some i else acc) none
+
+def unvendor (path : Name) : Name :=
+  let path := match lastIndexOf (asc "/vendor/") path with
+    | some i => path.drop (i + 8)
+    | none => path
+  if (asc "vendor/").isPrefixOf path then path.drop 7 else path
+
+def makeFullpath (path : Name) : Name := path.map fun b => if plainByte b then b else 95
+
+def importStep (tab : List (Name × Name)) (name path : Name) : Option (Name × List (Name × Name)) :=
+  let path := unvendor path
+  let full := makeFullpath path
+  match tab.lookup name with
+  | none => some (name, tab ++ [(name, path)])
+  | some p =>
+    if p == path then some (name, tab) else
+    match tab.lookup full with
+    | some p2 => if p2 != path then none else some (full, tab)
+    | none => some (full, tab ++ [(full, path)])
+
+def runImports (args : List SExp) : String :=
+  match pairsOf args with
+  | none => "bad-op"
+  | some ps =>
+    let rec go (tab : List (Name × Name)) (ps : List (Name × Name)) (acc : List String) : String :=
+      match ps with
+      | [] =>
+        let sorted := tab.toArray.qsort (fun a b => ltBytes a.1 b.1) |>.toList
+        "model=" ++ ",".intercalate acc.reverse ++ "|" ++ ",".intercalate (sorted.map fun (a, p) => esc a ++ "=" ++ esc p)
+      | (n, p) :: rest =>
+        match importStep tab n p with
+        | none => "model=" ++ ",".intercalate acc.reverse ++ ",panic"
+        | some (a, tab') => go tab' rest (esc a :: acc)
+    go [] ps []
+
+def runEffPrefixes (args : List SExp) : String :=
+  match args with
+  | [.atom p, .list (.atom "ov" :: ov)] =>
+    match unesc p, pairsOf ov with
+    | some p, some ov =>
+      let pls := defaultPlugins.map fun (n, q) => (asc n, effectivePrefix p ov (asc n, asc q))
+      let s := sortPlugins pls
+      "model=" ++ ",".intercalate (s.map fun (n, q) => esc n ++ "=" ++ esc q)
+    | _, _ => "bad-op"
+  | _ => "bad-op"
+
+def run (_s : DState) (name : String) (args : List SExp) : Option String :=
+  match name with
+  | "tm" => some (runTm args)
+  | "eq" =>
+    match args with
+    | [.list a, .list b] =>
+      match parseTyps a, parseTyps b with
+      | some a, some b =>
+        if !consistent (a ++ b) then some "ill-typed" else
+        some s!"model={eqL R a b},{decide (a = b)}"
+      | _, _ => some "bad-op"
+    | _ => some "bad-op"
+  | "sortplugins" => some (runSortPlugins args)
+  | "dispatch" => some (runDispatch args)
+  | "regall" => some (runRegAll args)
+  | "rho" =>
+    match args with
+    | [.atom p, .atom n] =>
+      match unesc p, unesc n with
+      | some p, some n => some ("model=" ++ esc (rho p n))
+      | _, _ => some "bad-op"
+    | _ => some "bad-op"
+  | "effprefixes" => some (runEffPrefixes args)
+  | "defaultplugins" =>
+    some ("model=" ++ ",".intercalate (defaultPlugins.map fun (n, p) => n ++ "=" ++ p))
+  | "imports" => some (runImports args)
+  | _ => none
 
 end OpsGen
